@@ -49,6 +49,11 @@ TRUSTED = [
 ]
 ORACLE_LIMIT = {"quick": 100000, "thorough": 1000000}
 EXPLORED_ONLY = [
+    "live-object states the property text does not speak about, modelled faithfully (Model/CdsObj.v) and compared, not "
+    "judged by the oracle: the placeholder views (Unix seconds 0, no datetime) of an object made with "
+    "init_dt_unix_stamp=False before its first read_from_raw / addition; the fields an in-place __add__ has already "
+    "updated when it raises OverflowError (e.g. day 65536, which pack() then refuses with struct.error) with the views "
+    "left stale; negative timedeltas",
     "CPython's datetime.fromtimestamp / timedelta(seconds=float) / float division themselves: transcribed into "
     "Model/CdsFloat.v and Model/CdsSoftFloat.v and validated by bit-exact correspondence on every run; the theorems "
     "C14_unix_seconds_close / C14_datetime_exact are about that transcription",
@@ -134,7 +139,85 @@ def impl(op, a):
     if op == 413:
         t = C.unpack(bytes(C(a[0][0], a[0][1]).pack()))
         return [[t.ccsds_days, t.ms_of_day]]
+    if op == 419:
+        before = D.datetime.now(tz=UTC)
+        t = [C.now, C.from_now, C.from_current_time][a[0][0] % 3]()
+        after = D.datetime.now(tz=UTC)
+        ms_total = lambda dt: (dt - D.datetime(1958, 1, 1, tzinfo=UTC)) // D.timedelta(milliseconds=1)   # noqa: E731
+        stamp = t.ccsds_days * MSPD + t.ms_of_day
+        in_window = ms_total(before) <= stamp <= ms_total(after)
+        normal = 0 <= t.ms_of_day < MSPD and 0 <= t.ccsds_days <= 65535 and list(t.pack()) == layout(t.ccsds_days, t.ms_of_day)
+        dtv = t.as_datetime()
+        views_ok = before <= dtv <= after and abs(t.as_unix_seconds() - dtv.timestamp()) < 1e-6 and (dt_us(dtv) // 1000 - (-4383) * MSPD) == stamp
+        return [[int(in_window), int(normal), int(views_ok)]]
+    if op == 418:
+        t = _make(a[0])
+        out = views_any(t)
+        kept = bytearray()            # the caller's receive buffer, re-used (edited in place) across reads
+        for o in a[1:]:
+            k = o[0]
+            r = [0]
+            try:
+                if k == 1:
+                    t.read_from_raw(bytes(o[1:]))
+                elif k in (2, 6):
+                    if k == 2:
+                        kept = bytearray(o[1:])
+                    elif list(kept) != o[1:]:
+                        raise RuntimeError("history op 6 does not carry the buffer's present content")
+                    try:
+                        t.read_from_raw(kept)
+                    finally:      # the caller re-uses its receive buffer: the stamp must not follow
+                        for i in range(len(kept)):
+                            kept[i] ^= 0xFF
+                        kept.extend(b"\x5a")
+                elif k == 3:
+                    t = t + D.timedelta(days=o[1], seconds=o[2], microseconds=o[3])
+                elif k == 4:
+                    t.read_from_raw(bytes(t.pack()))
+                elif k == 5:
+                    r = [0] + list(t.pack())
+                else:
+                    raise RuntimeError("bad history op")
+            except RuntimeError:
+                raise
+            except Exception as e:
+                from harness import core
+                r = [1, core.canon_code(core.classify_exception(e))]
+            out += [r] + views_any(t)
+        return out
     raise RuntimeError("bad op")
+
+
+def views_any(t):
+    """views of a live object; the datetime line is empty when the object has no _datetime yet"""
+    try:
+        dt = [dt_us(t.as_date_time() if t.ccsds_days % 2 else t.as_datetime())]    # as_date_time: deprecated alias
+    except AttributeError:
+        dt = []
+    return [[t.ccsds_days, t.ms_of_day], fl(t.as_unix_seconds()), dt]
+
+
+def _make(l):
+    """every way to obtain a CdsShortTimestamp object"""
+    k = l[0]
+    if k == 0:
+        return C(l[1], l[2])
+    if k == 1:
+        return C(l[1], l[2], init_dt_unix_stamp=False) if l[1] % 2 else C(l[1], l[2], False)
+    if k == 2:
+        return C.empty()
+    if k == 3:
+        return C.empty(False) if len(l) % 2 else C.empty(init_dt_unix_stamp=False)
+    if k == 4:
+        return C.unpack(bytes(l[1:]))
+    if k == 5:
+        return C.from_unix_days(l[1], l[2])
+    if k == 6:
+        return C.from_datetime(EPOCH + D.timedelta(days=l[1], seconds=l[2], microseconds=l[3]))
+    if k == 7:
+        return C.from_date_time(EPOCH + D.timedelta(days=l[1], seconds=l[2], microseconds=l[3]))
+    raise RuntimeError("bad constructor kind")
 
 
 # ---------------------------------------------------------------- generators
@@ -158,6 +241,30 @@ def layout(d, ms):
 def rand_ts(rng):
     return [rng.choice(DAYS) if rng.random() < 0.3 else rng.randrange(65536),
             rng.choice(MSS[:9]) if rng.random() < 0.3 else rng.randrange(MSPD)]
+
+
+def _receivers(rng):
+    """one object per construction path (incl. the rarely used flag / empty(False)) at boundary and random fields"""
+    d, ms = rand_ts(rng)
+    ud, sod, us = rng.randrange(UD_MIN, UD_MAX + 1), rng.randrange(86400), rng.choice(USS + [rng.randrange(10 ** 6)])
+    return [[0, d, ms], [1, d, ms], [0, 0, 0], [1, 0, 0], [1, 65535, MSPD - 1], [2], [3], [3, 0], [4] + layout(d, ms),
+            [4] + layout(0, 0) + [1, 2], [4] + layout(65535, 2 ** 32 - 1), [5, d - 4383, ms], [5, -4383, 0], [6, ud, sod, us],
+            [6, -4383, 0, 0], [1, rng.choice(DAYS), rng.choice(MSS)], [0, rng.choice(DAYS), rng.choice(MSS)],
+            [7, ud, sod, us], [7, rng.choice(UDS), rng.choice(SODS), rng.choice(USS)]]
+
+
+def _made_fields(make):
+    k = make[0]
+    if k in (0, 1):
+        return make[1], make[2]
+    if k in (2, 3):
+        return 0, 0
+    if k == 4:
+        b = make[1:]
+        return b[1] * 256 + b[2], ((b[3] * 256 + b[4]) * 256 + b[5]) * 256 + b[6]
+    if k == 5:
+        return make[1] + 4383, make[2]
+    return make[1] + 4383, make[2] * 1000 + make[3] // 1000
 
 
 def streams(tier, rng):
@@ -269,6 +376,98 @@ def streams(tier, rng):
                 tds += [rng.randrange(0, 3) if r < 0.9 else rng.randrange(0, 70000), rng.randrange(86400), rng.randrange(10 ** 6)]
         cases.append((417, [t, tds]))
     yield "add_histories", "exact", cases
+    # 5b. triple coincidences: day sum just below / at / above the 16-bit limit  x  time-of-day sum just below / at
+    #     / above midnight (carry or not)  x  days part of the timedelta 0, 1, >= 2 -- all combinations
+    cases = []
+    for dsum in (65533, 65534, 65535, 65536, 65537):
+        for tdd in (0, 1, 2, 3, 255, 256, 4383, 32768, 65534, 65535, 65536):
+            d = dsum - tdd
+            if not 0 <= d <= 65535:
+                continue
+            for ms in (0, 1, 999, 1000, 43200000, 86399000, 86399998, 86399999, rng.randrange(MSPD)):
+                for msum in (MSPD - 2, MSPD - 1, MSPD, MSPD + 1, MSPD + 1000, 2 * MSPD - 2 - (MSPD - 1 - ms) if ms else MSPD - 1):
+                    delta = msum - ms
+                    if not 0 <= delta < MSPD:
+                        continue
+                    for sub in (0, 999):
+                        td = [tdd, delta // 1000, delta % 1000 * 1000 + sub]
+                        cases.append((405, [[d, ms], td]))
+                        if sub == 0:
+                            cases.append((418, [[rng.choice([0, 1]), d, ms], [3] + td, [5], [4]]))
+    yield "add_triple_boundaries", "exact", cases
+    # 5c. ONE live object through every way to make it and every way to change it (read_from_raw with content
+    #     equal to / different from what it holds, from bytes and from a re-used bytearray; += timedelta; re-reading
+    #     its own pack()), views after every step
+    cases = []
+    for make in _receivers(rng):
+        d0, ms0 = _made_fields(make)
+        same = layout(d0, ms0) if (0 <= d0 <= 65535 and 0 <= ms0 < 2 ** 32) else layout(0, 0)
+        other = layout(*rand_ts(rng))
+        same_day = same[:3] + other[3:]          # same day, another time of day
+        same_ms = other[:3] + same[3:]           # another day, same time of day
+        for first in ([1] + same, [2] + same, [1] + other, [2] + other + [rng.randrange(256)] * rng.choice([0, 1, 600]), [4],
+                      [1] + same_day, [2] + same_ms, [1] + same[:6], [1, 0x50] + same[1:], [1, 0x44] + same[1:],
+                      [3, 0, 0, 0], [3, 0, 0, 999], [3, 0, 1, 0], [3, 1, 0, 0], [5]):
+            cases.append((418, [make, first, [5], [4], [1] + other, [1] + other, [3, 0, 0, 999], [4]]))
+    for i in range(30):          # now() and its two deprecated aliases: invariants against the clock reading
+        cases.append((419, [[i]]))
+    yield "exh_receivers_x_content", "exact", cases
+    cases = []
+    for _ in range(10000 if big else 1500):
+        make = rng.choice(_receivers(rng))
+        cur = list(_made_fields(make))
+        ops = []
+        for _ in range(rng.randrange(1, 11)):
+            k = rng.random()
+            packable = 0 <= cur[0] <= 65535 and 0 <= cur[1] < 2 ** 32
+            if k < 0.16 and packable:           # exactly the content it holds
+                ops.append([rng.choice([1, 2])] + layout(*cur))
+            elif k < 0.36:
+                t = rand_ts(rng) if rng.random() < 0.85 else [rng.randrange(65536), rng.randrange(2 ** 32)]
+                ops.append([rng.choice([1, 2])] + layout(*t) + [rng.randrange(256)] * rng.choice([0, 0, 2, 700]))
+                cur = t
+            elif k < 0.44:                      # refused input
+                b = layout(*rand_ts(rng))
+                ops.append([rng.choice([1, 2])] + rng.choice([b[:rng.randrange(7)], [rng.choice([0, 0x41 ^ 1, 0x44, 0xC4, 0x50, 0x30])] + b[1:]]))
+            elif k < 0.58:
+                ops.append([4])
+            elif k < 0.68:
+                ops.append([5])
+            else:
+                r = rng.random()
+                if r < 0.35 and 0 <= cur[1] < MSPD:      # land exactly on / next to midnight
+                    rest = MSPD - cur[1] + rng.choice([-1, 0, 0, 1])
+                    rest = min(max(rest, 0), MSPD - 1)
+                    td = [rng.choice([0, 0, 1, max(65535 - cur[0] - 1, 0), max(65535 - cur[0], 0)]), rest // 1000, rest % 1000 * 1000 + rng.choice([0, 999])]
+                elif r < 0.85:
+                    td = [rng.randrange(0, 3), rng.randrange(86400), rng.randrange(10 ** 6)]
+                elif r < 0.93:
+                    td = [rng.randrange(0, 70000), rng.randrange(86400), rng.randrange(10 ** 6)]
+                else:
+                    td = [-rng.randrange(1, 3000), rng.randrange(86400), rng.randrange(10 ** 6)]
+                ops.append([3] + td)
+                ms = cur[1] + td[1] * 1000 + td[2] // 1000
+                dd = cur[0]
+                if ms >= MSPD:
+                    ms -= MSPD; dd += 1
+                cur = [dd + td[0], ms]
+        cases.append((418, [make] + ops))
+    for _ in range(2000 if big else 300):     # the caller's bytearray handed over, edited in place, handed over again
+        make = rng.choice(_receivers(rng))
+        t1, t2 = rand_ts(rng), rand_ts(rng)
+        b1 = layout(*t1) + [rng.randrange(256)] * rng.choice([0, 3, 600])
+        inv = [x ^ 0xFF for x in layout(*t2)] + [rng.randrange(256)] * rng.choice([0, 3, 600])   # becomes t2 once edited
+        for b in (b1, inv):
+            nb = [x ^ 0xFF for x in b] + [0x5A]
+            nnb = [x ^ 0xFF for x in nb] + [0x5A]
+            cases.append((418, [make, [2] + b, [6] + nb, [5], [6] + nnb, [4]]))
+    yield "live_object_histories", "exact", cases
+    # 5d. buffer sizes: every input length 0..1100 (thorough 0..4200) through the decode entry points
+    cases = []
+    for n in list(range(0, 4201 if big else 1101)) + [65535, 65536]:
+        b = (layout(*rand_ts(rng)) + [rng.choice([0, 0x40, 0x80, 0xFF, rng.randrange(256)])] * max(n - 7, 0))[:n]
+        cases += [((402, 403, 404, 412)[n % 4], [b]), (418, [[[0, 7, 7], [1, 7, 7], [2], [3]][n % 4], [1 + n % 2] + b, [4]])]
+    yield "exh_buffer_sizes", "exact", cases
     # 6. from_datetime
     cases = []
     for ud, sod, us in itertools.product(UDS, SODS, USS):
@@ -416,6 +615,13 @@ def oracle(case, ires, sres):
         if ires[4] != [7]:
             return ("C14/CdsShortTimestamp.len_packed", "%s" % (ires,))
         return check_views("C14/CdsShortTimestamp.__add__", [total // MSPD, total % MSPD], ires)
+    if op == 419:
+        if err or ires[1] != [1, 1, 1]:
+            return ("C14/CdsShortTimestamp.now/clock-reading", "now()/from_now()/from_current_time(): (stamp within the clock window, "
+                    "normalised and packable, views are the reading) = %s" % (ires,))
+        return None
+    if op == 418:
+        return _oracle_live(a, ires)
     if op in (406, 416):
         ud, sod, us = a[0]
         if not (UD_MIN <= ud <= UD_MAX):
@@ -461,6 +667,105 @@ def oracle(case, ires, sres):
         if err or ires[1] != [int(a[0] == a[1])]:
             return ("C14/CdsShortTimestamp.__eq__", "%s -> %s" % (a, ires))
         return None
+    return None
+
+
+def _raw_bad(b):
+    return len(b) < 7 or (b[0] // 16) % 8 != 4 or (b[0] // 4) % 2 != 0
+
+
+def _oracle_live(a, ires):
+    """History on one live object.  After every accepted read_from_raw the fields are the decoded pair and BOTH
+    cached views are those of that pair -- whatever the receiver was (made with init_dt_unix_stamp=False, by
+    from_datetime, already holding exactly that content, ...); a refused read changes nothing; an accepted addition
+    gives the integer-arithmetic sum with views to match; pack() is the layout and changes nothing.  Not judged
+    (outside the property text, see report): the views of an object made with the flag False before its first
+    read / addition, the state an addition leaves behind when it is refused with OverflowError, negative
+    timedeltas."""
+    make = a[0]
+    err = ires[0][0] == 1
+    if make[0] == 4 and _raw_bad(make[1:]):
+        if not err or ires[0][1] not in (1, 2, 3):
+            return ("C14/CdsShortTimestamp.unpack/refusal", "short input or wrong P-field not refused with ValueError: %s -> %s" % (make[1:9], ires))
+        return None
+    if err:
+        return ("C14/CdsShortTimestamp.__init__/refuses-valid", "construction %s raised %s" % (make, ires))
+    ops = a[1:]
+    if len(ires) != 1 + 3 + 4 * len(ops):
+        return ("C14/adapter/history-shape", "%d lines for %d ops" % (len(ires), len(ops)))
+    cur = list(_made_fields(make))
+    prev = ires[1:4]
+    if make[0] in (6, 7):
+        if UD_MIN <= make[1] <= UD_MAX:
+            tot_us = (make[1] * 86400 + make[2]) * 10 ** 6 + make[3]
+            if prev[0] != cur or prev[2] != [tot_us]:
+                return ("C14/CdsShortTimestamp.from_datetime/views", "datetime %s: %s" % (make[1:], prev))
+    elif prev[0] != cur:
+        return ("C14/CdsShortTimestamp.__init__/fields", "%s -> %s" % (make, prev[0]))
+    elif make[0] in (0, 2, 4, 5) and ts_valid(cur):
+        m = check_views("C14/CdsShortTimestamp.__init__", cur, [None] + prev)
+        if m:
+            return m
+    for i, o in enumerate(ops):
+        r, obs = ires[4 + 4 * i], ires[5 + 4 * i:8 + 4 * i]
+        k = o[0]
+        rerr = r[0] == 1
+        if k in (1, 2, 4, 6):
+            packable = 0 <= cur[0] <= 65535 and 0 <= cur[1] < 2 ** 32
+            b = o[1:] if k != 4 else (layout(*cur) if packable else None)
+            name = "read_from_raw" if k != 4 else "read_from_raw(self.pack())"
+            if b is None or _raw_bad(b):
+                if b is not None and (not rerr or r[1] not in (1, 2, 3)):
+                    return ("C14/CdsShortTimestamp.read_from_raw/refusal", "step %d: short input or wrong P-field not refused with ValueError: %s -> %s" % (i, b[:8], r))
+                if b is None and not rerr:
+                    return ("C14/CdsShortTimestamp.pack/range", "step %d: out-of-range fields %s packed" % (i, cur))
+                if obs != prev:
+                    return ("C14/CdsShortTimestamp.read_from_raw/refused-but-changed", "step %d: the refused %s changed the object from %s to %s" % (i, name, prev, obs))
+            else:
+                if rerr:
+                    return ("C14/CdsShortTimestamp.read_from_raw/refuses-valid", "step %d: %s of %s -> %s" % (i, name, b[:7], r))
+                cur = [b[1] * 256 + b[2], ((b[3] * 256 + b[4]) * 256 + b[5]) * 256 + b[6]]
+                if obs[0] != cur:
+                    return ("C14/CdsShortTimestamp.read_from_raw/fields", "step %d: %s of %s left fields %s" % (i, name, b[:7], obs[0]))
+                if cur[1] < MSPD:
+                    m = check_views("C14/CdsShortTimestamp.read_from_raw", cur, [None] + obs)
+                    if m:
+                        return (m[0].replace("C14/as_", "C14/CdsShortTimestamp.read_from_raw/as_"),
+                                "step %d: after %s of %s into the object %s made by %s: %s" % (i, name, b[:7], prev, make[:4], m[1]))
+        elif k == 5:
+            if 0 <= cur[0] <= 65535 and 0 <= cur[1] < 2 ** 32:
+                if r != [0] + layout(*cur):
+                    return ("C14/CdsShortTimestamp.pack/layout", "step %d: pack of %s = %s" % (i, cur, r))
+            elif not rerr:
+                return ("C14/CdsShortTimestamp.pack/range", "step %d: out-of-range fields %s packed to %s" % (i, cur, r))
+            if obs != prev:
+                return ("C14/CdsShortTimestamp.pack/changes-object", "step %d: pack() changed the object from %s to %s" % (i, prev, obs))
+        elif k == 3:
+            td = o[1:4]
+            if ts_valid(cur) and td[0] >= 0:
+                total = cur[0] * MSPD + cur[1] + td[0] * MSPD + td[1] * 1000 + td[2] // 1000
+                ed, ems = total // MSPD, total % MSPD
+                if ed > 65535:
+                    if not rerr or r[1] != 8:
+                        return ("C14/CdsShortTimestamp.__add__/overflow", "step %d: %s + %s: day count %d not refused with OverflowError: %s %s" % (i, cur, td, ed, r, obs[0]))
+                    cur = list(obs[0])       # what a refused addition leaves behind is not judged
+                    prev = obs
+                    continue
+                if rerr:
+                    return ("C14/CdsShortTimestamp.__add__/refuses-valid", "step %d: %s + %s -> %s" % (i, cur, td, r))
+                if obs[0] != [ed, ems]:
+                    return ("C14/CdsShortTimestamp.__add__/normalised-sum", "step %d: %s + %s = %s, integer arithmetic gives %s" % (i, cur, td, obs[0], [ed, ems]))
+                cur = [ed, ems]
+                m = check_views("C14/CdsShortTimestamp.__add__", cur, [None] + obs)
+                if m:
+                    return m
+            else:
+                cur = list(obs[0])
+                if not rerr and ts_valid(cur):
+                    m = check_views("C14/CdsShortTimestamp.__add__", cur, [None] + obs)
+                    if m:
+                        return m
+        prev = obs
     return None
 
 
